@@ -89,6 +89,7 @@ func workspace(base string) {
 	w("g/g.go", "package g\n\ntype big struct{ a [40]int }\n\nfunc H(b big, fs []func()) int {\n\tfor _, f := range fs {\n\t\tdefer f()\n\t}\n\tfor _, x := range []big{b} {\n\t\t_ = x\n\t}\n\treturn b.a[0]\n}\n")
 	// names introduced by := (the local-definition walker): shadows of builtins and imports, capitalised locals
 	w("h/h.go", "package h\n\nimport \"strings\"\n\nfunc S(xs []int) int {\n\tlen := len(xs)\n\tnew, cap := 2, 3\n\tUpper := strings.ToUpper(\"x\")\n\tstrings := Upper\n\t_ = strings\n\tfor Idx, copy := range xs {\n\t\t_, _ = Idx, copy\n\t}\n\treturn len + new + cap\n}\n")
+	flipPackage(base)
 	w("d/d.go", "package d\n\nimport \"strings\"\n\nfunc D(s string) bool { return strings.Index(s, \"x\") >= 0 }\n\nfunc E(t []int) []int { return t[:] }\n")
 }
 
@@ -284,6 +285,7 @@ func Run(tier string, seed int64, outDir string) *common.Meta {
 			}
 		}
 	}
+	runs += crossArch(meta, base, outDir, bin)
 	meta.Distribution["binary_runs"] = runs
 
 	// the analyzer offers every checker the CLI offers: flags and registry
